@@ -564,6 +564,27 @@ class CallMixin(object):
         return [(state, ("call", name, tuple(args), tuple(sorted(kwargs.items()))))]
 
     # -- inlining ------------------------------------------------------------------
+    def _sql_passthrough(self, fi):
+        cache = self.__dict__.setdefault("_passthrough", {})
+        k = id(fi.node)
+        if k not in cache:
+            res = False
+            params = set(fi.params)
+            loopvars = set()
+            for n in ast.walk(fi.node):
+                if isinstance(n, ast.For):
+                    for t in ast.walk(n.target):
+                        if isinstance(t, ast.Name):
+                            loopvars.add(t.id)
+            for n in ast.walk(fi.node):
+                if isinstance(n, ast.Call) and isinstance(n.func, ast.Attribute) and \
+                        n.func.attr in ("execute", "executemany", "executescript") and \
+                        n.args and isinstance(n.args[0], ast.Name) and \
+                        (n.args[0].id in params or n.args[0].id in loopvars):
+                    res = True
+            cache[k] = res
+        return cache[k]
+
     def call_function(self, fi, self_term, args, kwargs, state, frame, node,
                       cells=None):
         if frame.depth + 1 > MAX_DEPTH:
@@ -582,6 +603,10 @@ class CallMixin(object):
             return [(state, ("call", fi.qualname, tuple(args),
                              tuple(sorted(kwargs.items()))))]
         nf = Frame(fi, self_term, frame.depth + 1, cells=cells)
+        if self._sql_passthrough(fi):
+            # a thin helper that executes SQL text handed in by its caller: its
+            # statements are identified by where the helper was called
+            nf.callsite = self.site(frame, node)
         env = {}
         params = list(fi.params)
         if self_term is not None and params and fi.cls and fi.parent is None:
@@ -594,6 +619,22 @@ class CallMixin(object):
                 params = params[1:]
                 env[fi.params[0]] = self_term
         kwargs = dict(kwargs)
+        if "**" in kwargs:
+            # f(..., **d): a literal mapping with string keys is spread; of any
+            # other mapping only "some of the remaining parameters" is known
+            star = kwargs.pop("**")
+            if star[0] == "dictlit" and all(is_const(k) and isinstance(k[1], str)
+                                            for k, _ in star[1]):
+                for k, v in star[1]:
+                    kwargs.setdefault(k[1], v)
+            elif star[0] == "kwdict":
+                for k, v in star[1]:
+                    kwargs.setdefault(k, v)
+            else:
+                for p in list(fi.params) + [a.arg for a in fi.node.args.kwonlyargs]:
+                    if p not in kwargs and p not in ("self", "cls"):
+                        kwargs.setdefault("**unknown", star)
+        unknown_star = kwargs.pop("**unknown", None)
         defaults = fi.defaults
         ndef = len(defaults)
         allparams = list(fi.params)
